@@ -1753,7 +1753,7 @@ def run(ctx):
     else:
         cases += gen_sp_cases(rng, 2000, sizes * 2 + [40, 48, 64], big=(64, 96, 128))
         cases += enum_small_cases()
-        cases += gen_complete_cases(rng, 300, sizes=(2, 3, 3, 4, 4, 5, 6, 8, 8, 12, 16, 24, 32, 48))
+        cases += gen_complete_cases(rng, 200, sizes=(2, 3, 3, 4, 4, 5, 6, 8, 8, 12, 16, 24, 32))
         iso_cases = gen_iso_cases(rng, 200, 60, 120, big=True) + gen_iso_special(rng, 120, 40)
         for N in (200, 256, 400):
             big_cases.append(rescale(rng, add_landmarks(rng, gen_knn(rng, N, rng.choice([6, 8, 10]), 2, 128,
